@@ -502,6 +502,7 @@ def explore(harness, *, tier='quick', timeout_ms=20000, max_paths=20000, budget_
     seen_labels = set()
     cache = set()
     slow = {}
+    core.RETRY_BUDGET[0] = 2
     confirmed_labels = set()
     twins_done = 0
     while work:
@@ -537,6 +538,9 @@ def explore(harness, *, tier='quick', timeout_ms=20000, max_paths=20000, budget_
             st['discharged'] += ctx.discharged
             st['assumes'] += ctx.assumes
             st['inconclusive'].extend(ctx.inconclusive)
+            if len(st['inconclusive']) > 6:
+                st['notes'].append('stopped: more than 6 solver timeouts in this case')
+                break
             for n in ctx.notes:
                 if n not in st['notes'] and len(st['notes']) < 20:
                     st['notes'].append(n)
